@@ -355,6 +355,17 @@ class TypeTag:
         return f"<type {self.name}>"
 
 
+class CallableTag(TypeTag):
+    """a type that is also constructed by the analysed code (e.g. concurrent.futures.Future)"""
+
+    def __init__(self, name, ctor):
+        super().__init__(name)
+        self.ctor = ctor
+
+    def __call__(self, ex, *a, **k):
+        return self.ctor(ex, *a, **k)
+
+
 def clone(v, memo):
     """deep copy of the mutable object graph (z3 terms are immutable and shared)"""
     if isinstance(v, Rec):
